@@ -163,6 +163,9 @@ type c06Plan struct {
 	SegBytes  int
 	SegFaults []vfkit.FaultKind
 	IdxFaults []vfkit.FaultKind
+	// RestartFaults: after every restart the first N S3 read/list calls fail (transient
+	// outage while the partition is being re-opened); the probe retries.
+	RestartFaults int
 }
 
 func c06DrawPlan(t *rapid.T) c06Plan {
@@ -185,6 +188,7 @@ func c06DrawPlan(t *rapid.T) c06Plan {
 	fk := rapid.SampledFrom([]vfkit.FaultKind{vfkit.FaultNone, vfkit.FaultNone, vfkit.FaultNone, vfkit.FaultNone, vfkit.FaultBefore, vfkit.FaultAfter})
 	p.SegFaults = rapid.SliceOfN(fk, 0, 6).Draw(t, "segfaults")
 	p.IdxFaults = rapid.SliceOfN(fk, 0, 6).Draw(t, "idxfaults")
+	p.RestartFaults = rapid.SampledFrom([]int{0, 0, 1, 2, 3}).Draw(t, "restartfaults")
 	return p
 }
 
@@ -219,7 +223,18 @@ func c06Run(p c06Plan, targetKind string, target int, after bool) (out c06Outcom
 	const topic = "orders"
 	obj := vfkit.NewObjStore()
 	segN, idxN := 0, 0
+	readFaultsLeft := 0
+	readFault := func(op vfkit.ObjOp) vfkit.FaultKind {
+		if (strings.HasPrefix(op.Kind, "get-") || op.Kind == "list") && readFaultsLeft > 0 {
+			readFaultsLeft--
+			return vfkit.FaultBefore
+		}
+		return vfkit.FaultNone
+	}
 	obj.Fault = func(op vfkit.ObjOp) vfkit.FaultKind {
+		if f := readFault(op); f != vfkit.FaultNone {
+			return f
+		}
 		switch op.Kind {
 		case "put-segment":
 			segN++
@@ -335,6 +350,7 @@ func c06Run(p c06Plan, targetKind string, target int, after bool) (out c06Outcom
 			out.Trace = append(out.Trace, fmt.Sprintf("fetch(%d,%d) shown<=%d", o, m, maxShown))
 		case "restart":
 			h = mkHandler()
+			readFaultsLeft = p.RestartFaults
 			out.Trace = append(out.Trace, "restart")
 		}
 	}
@@ -372,8 +388,17 @@ func c06Run(p c06Plan, targetKind string, target int, after bool) (out c06Outcom
 	crash.crashed = false
 	crash.target = -1
 	crash.mu.Unlock()
-	obj.Fault = nil
+	obj.Fault = readFault
+	readFaultsLeft = p.RestartFaults
 	h = mkHandler()
+	if p.RestartFaults > 0 {
+		out.Classes = append(out.Classes, "transient-s3-read-faults-while-reopening")
+		// a client retries retriable errors: burn the transient faults with throw-away fetches
+		for i := 0; i < p.RestartFaults+1; i++ {
+			_, _ = vfFetch(h, 11, topic, 0, 0, 1<<20)
+		}
+		readFaultsLeft = 0
+	}
 	for _, a := range acked {
 		fetchCheck(h, a, "after restart")
 	}
